@@ -41,7 +41,7 @@ def agree (m : F64) (n : Float) : Bool := if n.isNaN then m.isNaN else !m.isNaN 
 def floatOps : NumOps Float :=
   { add := (· + ·), sub := (· - ·), mul := (· * ·), div := (· / ·), ofNat := Float.ofNat,
     lt := fun a b => decide (a < b), zero := 0.0,
-    maxVal := Float.ofBits 0x7FEFFFFFFFFFFFFF, negMaxVal := Float.ofBits 0xFFEFFFFFFFFFFFFF }
+    maxVal := Float.ofBits 0x7FF0000000000000, negMaxVal := Float.ofBits 0xFFF0000000000000 }
 
 def commaJoin (l : List String) : String := ",".intercalate l
 def bar (l : List String) : String := " | ".intercalate l
